@@ -25,6 +25,8 @@ Transformations (each applied to one whole file at a time):
   elsereturn  `if c: ...; return` REST  ->  `if c: ...; return` else: REST
   isnot       `a is not b` -> `not a is b`, `a not in b` -> `not a in b`,
               `while 1` -> `while True`
+  guardclause a trailing `if c: BODY` of a loop body / function body ->
+              `if not c: continue` (`return`) followed by BODY
 
     python -m zverif.equiv [--files a.py,b.py] [--only rename,flipcmp] [--jobs N]
 """
@@ -356,6 +358,59 @@ def t_elsereturn(text, relpath):
     return ast.unparse(ast.fix_missing_locations(tree))
 
 
+# ------------------------------------------------------------- guardclause
+class _GuardClause(ast.NodeTransformer):
+    """`for ..: ...; if c: BODY`  (the `if` last in the loop body, no else)
+    ->  `for ..: ...; if not c: continue; BODY`; likewise at the end of a
+    function body with `return`."""
+
+    @staticmethod
+    def _neg(t):
+        if isinstance(t, ast.UnaryOp) and isinstance(t.op, ast.Not):
+            return t.operand
+        return ast.UnaryOp(op=ast.Not(), operand=t)
+
+    def _rewrite(self, body, leave):
+        if body and isinstance(body[-1], ast.If) and not body[-1].orelse \
+                and len(body[-1].body) > 1 and not any(
+                    isinstance(x, (ast.FunctionDef, ast.ClassDef,
+                                   ast.Global, ast.Nonlocal))
+                    for x in body[-1].body):
+            last = body[-1]
+            return body[:-1] + [ast.If(test=self._neg(last.test),
+                                       body=[leave()], orelse=[])] + last.body
+        return body
+
+    def visit_For(self, node):
+        self.generic_visit(node)
+        if not node.orelse:
+            node.body = self._rewrite(node.body, ast.Continue)
+        return node
+
+    def visit_While(self, node):
+        self.generic_visit(node)
+        if not node.orelse:
+            node.body = self._rewrite(node.body, ast.Continue)
+        return node
+
+    def visit_FunctionDef(self, node):
+        self.generic_visit(node)
+        gen = any(isinstance(x, (ast.Yield, ast.YieldFrom))
+                  for x in ast.walk(node))
+        if not gen:
+            node.body = self._rewrite(node.body,
+                                      lambda: ast.Return(value=None))
+        return node
+
+    def visit_Lambda(self, node):
+        return node
+
+
+def t_guardclause(text, relpath):
+    return ast.unparse(ast.fix_missing_locations(
+        _GuardClause().visit(ast.parse(text))))
+
+
 # ------------------------------------------------------------------ isnot
 class _IsNot(ast.NodeTransformer):
     """`a is not b` -> `not a is b`;  `a not in b` -> `not a in b`;
@@ -388,6 +443,7 @@ TRANSFORMS = {
     'invertif': t_invertif, 'demorgan': t_demorgan, 'augassign': t_augassign,
     'lockstmt': t_lockstmt, 'tempret': t_tempret,
     'elsereturn': t_elsereturn, 'isnot': t_isnot,
+    'guardclause': t_guardclause,
 }
 
 
